@@ -40,8 +40,9 @@ def write(prop, tier, seed, stats, *, rule, exhaustive, bounds, alphabet, assump
         "wall_s": stats.wall(),
         "violations": int(violations),
     }
-    os.makedirs(os.path.join(ROOT, "evidence"), exist_ok=True)
-    path = os.path.join(ROOT, "evidence", prop + ".json")
+    evdir = os.environ.get("VERIF_EVIDENCE_DIR") or os.path.join(ROOT, "evidence")
+    os.makedirs(evdir, exist_ok=True)
+    path = os.path.join(evdir, prop + ".json")
     tmp = path + ".tmp"
     with open(tmp, "w") as f:
         json.dump(doc, f, indent=1, sort_keys=True, ensure_ascii=True, default=str)
